@@ -21,7 +21,7 @@ B = 1000 * S
 WITNESS = {
     "F-15": (ENG, "lru 1 0 %d 0 60 0 0 0 %d s i 1 100 1 a %d g 1 eo 1 e 1 7 1 y 900" % (T5, B, T5), "entry-serves-expired"),
     "F-16": (ENG, "lru 1 0 %d 0 60 0 0 0 %d s i 1 100 1 m m m m m m f 1 y 900" % (T5, B), "maintenance-evicts-unexpired"),
-    "F-33": (ENG, "lru 1 0 %d 0 60 0 0 0 %d s i 1 100 1 a %d g 1 cv 1 k y 900" % (T5, B, T5), "compute-sees-expired"),
+    "F-33-compute": (ENG, "lru 1 0 %d 0 60 0 0 0 %d s i 1 100 1 a %d g 1 cv 1 k y 900" % (T5, B, T5), "compute-sees-expired"),
 }
 
 
